@@ -247,21 +247,31 @@ ER_LAMS = ["0", "1", "2", "-1/2", "3/4"]
 
 
 def _decoy(m, X, y, kw):
-    """two decoy loads before the real one: K.decoy_load (same shape: labels flipped / reversed, groups rotated) and a
-    smaller data set (last row dropped, two alternating groups, no strata change) whose index differs"""
+    """two decoy loads before the real one: K.decoy_load (same shape: labels flipped / reversed, groups rotated - the
+    group sizes stay the same) and a smaller data set (last row dropped, two alternating groups) whose index, group
+    sizes and n differ; which of the two comes first alternates with n, so that state kept from the FIRST load
+    and state kept from the PREVIOUS load both show"""
     import numpy as np, pandas as pd
-    K.decoy_load(m, X, y, kw)
     n = len(y)
-    if n < 4:
-        return
-    ya = np.asarray(y)[: n - 1]
-    kw2 = {k: list(v)[: n - 1] for k, v in kw.items()}
-    kw2["sensitive_features"] = [K.GNAMES[i % 2] for i in range(n - 1)]
-    try:
-        m.load_data(X.iloc[: n - 1], pd.Series(ya[::-1].copy()), **kw2)
-        m.gamma(lambda X_: np.ones(n - 1))
-    except Exception:
-        pass
+
+    def small():
+        if n < 4:
+            return
+        ya = np.asarray(y)[: n - 1]
+        kw2 = {k: list(v)[: n - 1] for k, v in kw.items()}
+        kw2["sensitive_features"] = [K.GNAMES[i % 2] for i in range(n - 1)]
+        try:
+            m.load_data(X.iloc[: n - 1], pd.Series(ya[::-1].copy()), **kw2)
+            m.gamma(lambda X_: np.ones(n - 1))
+            m.signed_weights(pd.Series(1.0, index=m.index))
+        except Exception:
+            pass
+    if n % 2:
+        small()
+        K.decoy_load(m, X, y, kw)
+    else:
+        K.decoy_load(m, X, y, kw)
+        small()
 
 
 def impl_bgl(case):
